@@ -10,7 +10,7 @@ ASSUMPTIONS = [
     'base level (1, or 2 with omit_title) and no heading is more than one level deeper than its predecessor; other documents are '
     'generated too but only counted (exploratory), as "nested according to level" is not defined for them',
     'titles consist of plain words, optionally with emphasis / strong / code spans whose content is plain words',
-    'the TOC is read through the documented attribute TocRenderer.toc (a List token) inside the renderer\'s context',
+    'the TOC is read through the documented attribute TocRenderer.toc (a List token) inside the renderer\'s context and once more after the context has closed',
 ]
 
 FILTERS = {
@@ -179,6 +179,8 @@ def check(ctx, doc, depth, omit_title, fname, case):
             with cls(depth=depth, omit_title=omit_title, filter_conds=FILTERS[fname]) as r:
                 r.render(mt.Document(doc.text))
                 toc = r.toc if not why or why != 'no qualifying heading' else None
+            # "after rendering a document": the attribute is read again once the context is closed
+            toc_after = r.toc if not why else None
         finally:
             mt.reset()
     except Exception as e:  # noqa
@@ -198,6 +200,10 @@ def check(ctx, doc, depth, omit_title, fname, case):
     if got != want:
         ctx.violation('toc-differs', shape_key(want, got), case, text=doc.text, expected=repr(want), observed=repr(got),
                       headings=repr(doc.outline))
+        return
+    if read_toc(toc_after) != want:
+        ctx.violation('toc-differs', 'read after the context closed: ' + shape_key(want, read_toc(toc_after)), case, text=doc.text, expected=repr(want),
+                      observed=repr(read_toc(toc_after)), headings=repr(doc.outline))
         return
     ctx.count('held', 'tocs')
     if len(entries) > 1:
